@@ -67,11 +67,12 @@ type Case struct {
 	Dst     string `json:"dst"`    // absent | present | mode | nodir
 	Old     string `json:"old"`    // size class of the old content: empty | small | big
 	New     string `json:"new"`    // size class of the new content
-	Layout  string `json:"layout"` // tmpdir (TMPDIR on the same file system) | xdev (TMPDIR elsewhere) | explicit (opts.TempDir)
+	Layout  string `json:"layout"` // tmpdir (TMPDIR on the same file system) | xdev (TMPDIR elsewhere) | explicit (opts.TempDir) | explicitx
 	Fault   string `json:"fault"`  // none | srcerr (source reader fails half way) | short (first download is cut short)
 	Seed    int    `json:"seed"`
 	Root    string `json:"root"`   // sandbox (filled in by the batch runner)
 	Tmpdir  string `json:"tmpdir"` // TMPDIR of the writer (filled in by the batch runner)
+	Xtmp    string `json:"xtmp"`   // opts.TempDir of layout explicitx: a directory on another file system
 	Reps    int    `json:"reps"`
 	Readers int    `json:"readers"`
 }
@@ -108,6 +109,9 @@ func newLayout(c Case) *layout {
 	l := &layout{c: c, pub: filepath.Join(c.Root, "pub"), kind: "file"}
 	l.src = filepath.Join(c.Root, "src", "source.bin")
 	l.xtmp = filepath.Join(c.Root, "xtmp")
+	if c.Xtmp != "" {
+		l.xtmp = c.Xtmp
+	}
 	l.tmpRoots = []string{c.Tmpdir, l.xtmp}
 	switch c.Prim {
 	case "symlink":
@@ -169,6 +173,9 @@ func (l *layout) comps(p string) []string {
 	}
 	if under(p, l.c.Tmpdir) {
 		return append([]string{"@tmp"}, strings.Split(strings.TrimPrefix(p, l.c.Tmpdir+"/"), "/")...)
+	}
+	if under(p, l.xtmp) {
+		return append([]string{"@xtmp"}, strings.Split(strings.TrimPrefix(p, l.xtmp+"/"), "/")...)
 	}
 	return []string{"@ext", p}
 }
@@ -360,6 +367,9 @@ func (l *layout) tree() map[string]bool {
 	if !under(l.c.Tmpdir, l.c.Root) {
 		roots = append(roots, l.c.Tmpdir)
 	}
+	if !under(l.xtmp, l.c.Root) {
+		roots = append(roots, l.xtmp)
+	}
 	for _, r := range roots {
 		_ = filepath.WalkDir(r, func(p string, d fs.DirEntry, err error) error {
 			if err == nil {
@@ -520,7 +530,7 @@ func (l *layout) prepared(gen int) (func() error, func(), error) {
 		data = genContent(gen)
 	}
 	var opts *utils.AtomicFileOptions
-	if c.Layout == "explicit" {
+	if c.Layout == "explicit" || c.Layout == "explicitx" {
 		opts = &utils.AtomicFileOptions{TempDir: l.xtmp}
 	}
 	nop := func() {}
@@ -1116,6 +1126,15 @@ func runOne(h int, s script, work string, tr *vio.Trace) {
 		}
 		defer os.RemoveAll(x)
 		c.Tmpdir = x
+	}
+	if c.Layout == "explicitx" {
+		x, err := os.MkdirTemp("/dev/shm", "verif-c17-")
+		if err != nil {
+			fail("xdev", err)
+			return
+		}
+		defer os.RemoveAll(x)
+		c.Xtmp = x
 	}
 	l := newLayout(c)
 	if err := l.prep(); err != nil {
